@@ -5,6 +5,7 @@ import (
 	"os"
 	"os/signal"
 	"syscall"
+	"time"
 
 	"verif/kit"
 	"verif/schedsim"
@@ -17,9 +18,10 @@ func main() {
 		clean()
 		os.Exit(2)
 	}
+	// (kit's own handler kills the worker process groups; this one removes the scratch copy)
 	sig := make(chan os.Signal, 1)
-	signal.Notify(sig, syscall.SIGINT, syscall.SIGTERM)
-	go func() { <-sig; clean(); os.Exit(2) }()
+	signal.Notify(sig, syscall.SIGINT, syscall.SIGTERM, syscall.SIGHUP)
+	go func() { <-sig; time.Sleep(300 * time.Millisecond); clean(); os.Exit(2) }()
 	code := kit.MainCode(map[string]*kit.Spec{"C18": schedsim.C18()})
 	clean()
 	os.Exit(code)
